@@ -785,6 +785,24 @@ def chunks(l, n):
 _CALLS = 0
 
 
+def sweep_step():
+    """1 = all 256 r-planes (the full 256^3 sweep, ~25 CPU-minutes of real-code palette searches).
+    On a host that is already overloaded (load average > 2 x cores) only every 4th plane is swept, so that
+    the tier stays inside its time budget; VERIF_C19_SWEEP=full|quarter overrides."""
+    mode = os.environ.get("VERIF_C19_SWEEP", "")
+    if mode == "full":
+        return 1
+    if mode == "quarter":
+        return 4
+    try:
+        overloaded = os.getloadavg()[0] > 2.0 * (os.cpu_count() or 1)
+    except OSError:
+        overloaded = False
+    if overloaded:
+        sys.stderr.write("C19: host overloaded, sweeping every 4th r-plane of the 256^3 cube only\n")
+    return 4 if overloaded else 1
+
+
 def cases(tier, rng):
     """all cases of the tier; the expensive full-sweep rows are spread evenly over the list so that the
     worker chunks of core.parallel_eval are balanced"""
@@ -882,7 +900,8 @@ def _cases(tier, rng):
         for ch in chunks(items, 400):
             yield {"k": "c16", "items": ch}
     else:
-        for r in range(256):
+        step = sweep_step()
+        for r in range(0, 256, step):
             for gs in chunks(list(range(256)), 16):
                 yield {"k": "c256row", "r": r, "gs": gs, "corr": r % 8 == 0}
         g3 = grid(52)
@@ -945,7 +964,8 @@ def nontrivial(case):
 
 
 def distribution(cases_):
-    d = {"kind": {}, "rules_per_query": {}, "sheets": {}, "lines": {}}
+    d = {"kind": {}, "rules_per_query": {}, "sheets": {}, "lines": {},
+         "rgb_planes_swept": len({c["r"] for c in cases_ if c["k"] == "c256row"})}
     for c in cases_:
         k = c["k"]
         d["kind"][k] = d["kind"].get(k, 0) + 1
